@@ -24,7 +24,32 @@ def DB(focus, q, t, nops=14, big=False, scale=1, shards_q=8):
 def DB_SCN(names):
     return [{"cmd": "db-scenario", "mode": "api", "args": ["--name", n], "cases": {"quick": 1, "thorough": 1}, "corpus": True} for n in names]
 
+IMG_RUN = {"cmd": "image", "mode": "image", "cases": {"quick": 24, "thorough": 400}, "shards": {"quick": 8, "thorough": 16}}
+IMG_TB = ["Lean decoders of the on-disk formats (lean/NomtModel/Store/Img*.lean) are hand-written from the layout comments of the Rust sources; they are tied to the real files by the image run (every snapshot of a real directory must decode to the oracle's committed map)",
+          "BLAKE3 (arbitrary length) and XXH3-64 (32-byte input, seeded) implemented in Lean, validated by the same run (value hashes, merkle nodes, meta-byte tags and probe positions of real directories)",
+          "harness oracle: BTreeMap of the committed state kept by the history engine (harness/src/db.rs), written to expected.txt",
+          "snapshots are file copies taken at quiescent points (after commit / rollback / reopen returned)"]
+IMG_ASSUME = ["single-threaded histories; snapshots only at quiescent points (crash images are C10/C17)", "tmpfs directory under /dev/shm", "4096-bucket hash tables; page ids of depth <= 40 (the add-then-shift label of PageId::encode overflows 256 bits beyond)"]
+IMG_RULE = ("cases = generated histories of the history engine (session / overlay commits, rollback(n), reopen with another configuration) on a 4096-bucket table, "
+            "batch scale 1..30 (up to several hundred keys), value lengths straddling 1332 / 4092 / 15*4092 bytes (overflow chains), deletions; one protocol line "
+            "`check <snapshot-dir> <expected-file>` per quiescent point: the Lean driver reads meta, ln, bbn, ht, wal and rollback.* itself, decodes them, runs wfImage "
+            "(page ownership, key order, separator ranges, overflow chains, free lists), wfTable (meta bytes, labels, xxh3 tag and probe position), checkMerkle "
+            "(every reachable node of every stored page = nodeAt, elision rule) and compares absImage with the committed map (length + Blake3 of every value). "
+            "Any `bad …` answer is an oracle failure. distinct & non-trivial = snapshots with a non-empty committed state, identified by (cause, expected-state file).")
+
 PROPS = {
+    "C16": {
+        "runs": [dict(IMG_RUN)],
+        "rule": IMG_RULE,
+        "trusted_base": IMG_TB, "assumptions": IMG_ASSUME,
+    },
+    "C19": {
+        "runs": [dict(IMG_RUN, leaks_fail=True)],
+        "rule": IMG_RULE + " C19 (accounting): for ln and bbn every page number in [1, bump) must be in use by the decoded state (leaf / overflow / branch) or tracked by the "
+                "free list (free-list page or listed free page), and no page may be both; the driver prints ln_leaked / bbn_leaked per snapshot and any non-zero value is reported as "
+                "`C19 leaked pages: …`; hash-table occupancy = number of full meta bytes (ht_full) is cross-checked against the stored page set.",
+        "trusted_base": IMG_TB, "assumptions": IMG_ASSUME,
+    },
     "C08": {
         "runs": [
             {"cmd": "core-pp", "mode": "core", "cases": {"quick": 1200, "thorough": 40000}, "shards": {"quick": 8, "thorough": 16}},
